@@ -66,10 +66,37 @@ def generate(rng, tier):
         if dec["per_y"]:
             V[Ly] = [list(v) for v in V[0]]
         func = rng.choice(["div", "div", "diff", "interp"])
+        narrow = None
+        if rng.random() < 0.35:
+            # one local component is stored as int64 although its partner is not integer-valued: every
+            # global edge value that feeds that local component (on any face) stays an integer, every
+            # other edge value is moved by one half (exact in every type; the spec is exact anyway)
+            import numpy as np
+            which = rng.choice(["u", "v"])
+            Uid = np.arange(1, Ly * (Lx + 1) * T + 1).reshape(Ly, Lx + 1, T)
+            Vid = (10 ** 6 + np.arange(1, (Ly + 1) * Lx * T + 1)).reshape(Ly + 1, Lx, T)
+            keep = set()
+            for ch in dec["charts"]:
+                c = {"o": tuple(ch["o"]), "M": (tuple(ch["M"][0]), tuple(ch["M"][1]))}
+                for j in range(N):
+                    for i in range(N):
+                        C0 = atlas.chart_apply(c, (i, j))
+                        prev = atlas.chart_apply(c, (i - 1, j) if which == "u" else (i, j - 1))
+                        keep |= {abs(int(k)) for k in np.ravel(phi(dec, Uid, Vid, prev, C0))}
+            U = [[[U[y][x][t] + (0 if int(Uid[y, x, t]) in keep else 0.5) for t in range(T)]
+                  for x in range(Lx + 1)] for y in range(Ly)]
+            V = [[[V[y][x][t] + (0 if int(Vid[y, x, t]) in keep else 0.5) for t in range(T)]
+                  for x in range(Lx)] for y in range(Ly + 1)]
+            if dec["per_x"]:
+                for y in range(Ly):
+                    U[y][Lx] = list(U[y][0])
+            if dec["per_y"]:
+                V[Ly] = [list(v) for v in V[0]]
+            narrow = [which, "int64"]
         cases.append({"dec": dec, "U": U, "V": V, "extra": extra, "func": func, "axis": rng.choice(["X", "Y"]),
                       "rule": rng.choice(["extend", "fill"]), "fill": rng.choice([0, 4, -3]),
                       "face_pos": rng.randrange(3 + (1 if extra else 0)),
-                      "seed_listing": rng.randrange(10 ** 6) if rng.random() < 0.6 else None})
+                      "seed_listing": rng.randrange(10 ** 6) if rng.random() < 0.6 else None, "narrow": narrow})
     return cases
 
 
@@ -131,6 +158,15 @@ def run_impl(case):
             dims.insert(min(case["face_pos"], len(dims)), "face")
             return da.transpose(*dims)
         uda, vda = mv(uda), mv(vda)
+        narrow = case.get("narrow")
+        if narrow:
+            which, dt = narrow
+            arr = uda if which == "u" else vda
+            if np.array_equal(arr.values.astype(dt).astype(float), arr.values):     # held exactly
+                if which == "u":
+                    uda = uda.astype(dt)
+                else:
+                    vda = vda.astype(dt)
         kw = dict(boundary=case["rule"], fill_value=case["fill"])
 
         def op(name, axis):
